@@ -717,7 +717,9 @@ class CategoricalROISubsetState(SubsetState):
     @contract(data='isinstance(Data)', view='array_view')
     def to_mask(self, data, view=None):
         x = data[self.att, view]
-        result = self.roi.contains(x, None)
+        # (for a view that selects a single element, the comparison of Numpy
+        # string scalars inside the ROI gives a Python bool)
+        result = np.asarray(self.roi.contains(x, None))
         assert x.shape == result.shape
         return result
 
